@@ -53,6 +53,7 @@ Definition label_of (l : list N) : option xlabel :=
     | 8%N => Some (XStartUoc t') | 9%N => Some (XStep t' a')
     | 10%N => Some (XStartUoc t')          (* make_mut: the same two programs; see [cow] below *)
     | 11%N => Some (XStartUniq t')         (* get_mut: the uniqueness program; the grant is a [&mut T] *)
+    | 12%N => Some (XStartUniq t')         (* try_unwrap: the uniqueness program; a grant is used at once to move out *)
     | _ => None
     end
   | _ => None
@@ -84,18 +85,26 @@ Definition step_class (s : xstate) (l : xlabel) : N * N * N * N :=
     two; this stream does, by remembering which threads' running (or last) call is a make_mut ([cow]).
     [Arc::get_mut] is to [try_unique] what make_mut is to unwrap_or_clone: the uniqueness program alone, and a grant
     that is a [&mut T] (it can be written through and let go, not turned into the value); it is remembered in the
-    same list. *)
-Definition is_cow (cow : list nat) (t : nat) : bool := existsb (Nat.eqb t) cow.
-Definition is_cow_raw (raw : list N) : bool := match raw with 10%N :: _ | 11%N :: _ => true | _ => false end.
+    same list.  [Arc::try_unwrap] is [try_unique] followed at once by [UniqueArc::into_inner]: like unwrap_or_clone it is
+    still running between its grant and the move-out, and unlike it the handle comes back when it is refused.  The
+    list holds (thread, kind of its running or last call) for the calls 10, 11 and 12. *)
+Definition has_kind (cow : list (nat * N)) (t : nat) (k : N) : bool := existsb (fun e => Nat.eqb (fst e) t && N.eqb (snd e) k) cow.
+Definition is_cow (cow : list (nat * N)) (t : nat) : bool := has_kind cow t 10 || has_kind cow t 11.
+Definition is_tuw (cow : list (nat * N)) (t : nat) : bool := has_kind cow t 12.
+Definition is_cow_raw (raw : list N) : bool := match raw with 10%N :: _ | 11%N :: _ | 12%N :: _ => true | _ => false end.
 
 (** inside unwrap_or_clone the grant is not visible from outside: the function is still running, with the handle it
     was given *)
-Definition in_uoc_grant (cow : list nat) (s : xstate) (t : nat) : bool :=
+Definition in_uoc_grant (cow : list (nat * N)) (s : xstate) (t : nat) : bool :=
   let x := xget s t in
-  match x_pc x, x_mode x, x_ret x with [], XGranted, RGone => negb (is_cow cow t) | _, _, _ => false end.
+  match x_pc x, x_mode x, x_ret x with
+  | [], XGranted, RGone => negb (is_cow cow t)
+  | [], XGranted, RGiveBack => is_tuw cow t          (* try_unwrap: granted, about to move the value out *)
+  | _, _, _ => false
+  end.
 
 (** the function the thread was running has returned *)
-Definition finished (cow : list nat) (s : xstate) (t : nat) : bool :=
+Definition finished (cow : list (nat * N)) (s : xstate) (t : nat) : bool :=
   match x_pc (xget s t) with [] => negb (in_uoc_grant cow s t) | _ => false end.
 
 Definition label_thread (l : xlabel) : nat :=
@@ -103,7 +112,7 @@ Definition label_thread (l : xlabel) : nat :=
   | XClone t | XRead t | XWrite t | XUngrant t | XMoveOut t | XSend t _ | XStartDrop t | XStartUniq t | XStartUoc t | XStep t _ => t
   end.
 
-Definition mode_code (cow : list nat) (s : xstate) (t : nat) : N :=
+Definition mode_code (cow : list (nat * N)) (s : xstate) (t : nat) : N :=
   let x := xget s t in
   if in_uoc_grant cow s t then 2%N else
   match x_pc x, x_mode x with
@@ -112,10 +121,10 @@ Definition mode_code (cow : list nat) (s : xstate) (t : nat) : N :=
   | [], XIdle => 0%N
   end.
 
-Definition owned_code (cow : list nat) (s : xstate) (t : nat) : N :=
+Definition owned_code (cow : list (nat * N)) (s : xstate) (t : nat) : N :=
   let x := xget s t in N.of_nat (if in_uoc_grant cow s t then x_owned x - 1 else x_owned x).
 
-Fixpoint summary (cow : list nat) (s : xstate) (n t : nat) : list N :=
+Fixpoint summary (cow : list (nat * N)) (s : xstate) (n t : nat) : list N :=
   match n with
   | O => []
   | S n' => owned_code cow s t :: mode_code cow s t :: summary cow s n' (S t)
@@ -124,11 +133,11 @@ Fixpoint summary (cow : list nat) (s : xstate) (n t : nat) : list N :=
 (** between the grant inside unwrap_or_clone and the move-out that follows it the thread is inside that function: the
     only thing it can do is go on (the machine would also let it read through the granted handle); a grant handed out
     by make_mut is a [&mut T]: it cannot be turned into the value *)
-Definition granted_by_cow (cow : list nat) (s : xstate) (t : nat) : bool :=
+Definition granted_by_cow (cow : list (nat * N)) (s : xstate) (t : nat) : bool :=
   let x := xget s t in
   match x_pc x, x_mode x with [], XGranted => is_cow cow t | _, _ => false end.
 
-Definition allowed (cow : list nat) (s : xstate) (l : xlabel) : bool :=
+Definition allowed (cow : list (nat * N)) (s : xstate) (l : xlabel) : bool :=
   match l with
   | XMoveOut t => negb (granted_by_cow cow s t)
   | _ => negb (in_uoc_grant cow s (label_thread l))
@@ -151,20 +160,20 @@ Definition encode_label (l : xlabel) : list N :=
 Definition encode_raw (raw : list N) (l : xlabel) : list N :=
   if is_cow_raw raw then hd 10%N raw :: tl (encode_label l) else encode_label l.
 
-Definition try_step (P : progs) (cow : list nat) (s : xstate) (l : xlabel) : option xstate :=
+Definition try_step (P : progs) (cow : list (nat * N)) (s : xstate) (l : xlabel) : option xstate :=
   if allowed cow s l then xstep P s l else None.
 
 (** which threads' current call is a make_mut, after label [l] (given as [raw]) was accepted *)
-Definition cow_after (cow : list nat) (raw : list N) (l : xlabel) : list nat :=
+Definition cow_after (cow : list (nat * N)) (raw : list N) (l : xlabel) : list (nat * N) :=
   match l with
   | XStartDrop t | XStartUniq t | XStartUoc t =>
-    let rest := filter (fun u => negb (Nat.eqb u t)) cow in
-    if is_cow_raw raw then t :: rest else rest
+    let rest := filter (fun e => negb (Nat.eqb (fst e) t)) cow in
+    if is_cow_raw raw then (t, hd 10%N raw) :: rest else rest
   | _ => cow
   end.
 
 (** [fuel] bounds the number of ACCEPTED labels: views are lists that grow with every join *)
-Fixpoint run_labels (P : progs) (fuel : nat) (cow : list nat) (s : xstate) (ls : list (list N)) : (xstate * list nat) * list (list N) :=
+Fixpoint run_labels (P : progs) (fuel : nat) (cow : list (nat * N)) (s : xstate) (ls : list (list N)) : (xstate * list (nat * N)) * list (list N) :=
   match ls with
   | [] => ((s, cow), [])
   | raw :: r =>
@@ -206,7 +215,7 @@ Proof. reflexivity. Qed.
 
 (** every label that [run_labels] accepts is a step of the machine: the final state is the one [xexec] reaches on the
     accepted labels, so the theorems of ConcXProofs about all schedules cover every schedule this stream can run *)
-Fixpoint accepted (P : progs) (fuel : nat) (cow : list nat) (s : xstate) (ls : list (list N)) : list xlabel :=
+Fixpoint accepted (P : progs) (fuel : nat) (cow : list (nat * N)) (s : xstate) (ls : list (list N)) : list xlabel :=
   match ls with
   | [] => []
   | raw :: r =>
